@@ -184,19 +184,16 @@ def _populate_container(path: str, container: Any, values: Dict[str, Any]) -> No
         key_to_val: Dict[Union[str, int], Any] = {
             _decode(k): v for k, v in values.items()
         }
-        # If a string can represent an integer, make the integer represented by
-        # the string a candidate key in addition.
-        for key in list(values.keys()):
-            key = _decode(key)
-            if _check_int(key):
-                key_to_val[int(key)] = values[key]
+        # flatten() derives the path component of a key from str(key), so that
+        # is what identifies the key's value here (the key itself may be an int
+        # or a bool).
         # NOTE: only keys that appear in both `container` and `key_to_val` will
         # be present in the poplated container. The caller of `inflate()` is
         # responsible for adding a key into the container entry if they wish
         # the key to be present in the inflated container.
         for key in list(container.keys()):
-            if key in key_to_val:
-                container[key] = key_to_val[key]
+            if str(key) in key_to_val:
+                container[key] = key_to_val[str(key)]
             else:
                 del container[key]
     else:
